@@ -42,6 +42,7 @@ type blobVal struct {
 	n    *Term // encoded length (symbolic, > 0 for a message with content)
 	junk bool  // not a protobuf encoding at all
 	hybrid bool // new bytes followed by the tail of older, longer content
+	midField bool // torn in the middle of a field: decoding fails (after filling what was read)
 }
 
 type fileAbs struct {
@@ -135,6 +136,7 @@ func slashFree(t *Term) *Term {
 		switch {
 		case a.Op == "cs" && !strings.Contains(a.S, "/"):
 		case a.Op == "uf" && a.Name == "H":
+		case a.Op == "var" && strings.HasSuffix(a.Name, "_tmpname"): // decimal digits by construction
 		default:
 			ok = false
 		}
@@ -298,7 +300,7 @@ func init() {
 		fs.files = append(fs.files, f)
 		return f, Iface{}
 	}
-	writeBlob := func(ex *Exec, f *fsEnt, data Value, site string) Iface {
+	writeBlob := func(ex *Exec, f *fsEnt, data Value, site string, keepOld bool) Iface {
 		fs := ex.fsys()
 		b, ok := data.(*blobVal)
 		if !ok {
@@ -309,7 +311,12 @@ func init() {
 			k := ex.freshVar("torn", SInt, "int", true)
 			ex.assume(mkIntCmp("<=", mkInt(0), k))
 			ex.assume(mkIntCmp("<", k, b.n))
-			f.content = &blobVal{doc: b.doc, typ: b.typ, torn: k, n: b.n}
+			if old, _ := f.content.(*blobVal); keepOld && old != nil && old.n != nil && old.n != mkInt(0) && old.torn == nil {
+				// written over existing bytes without truncation: the first k new bytes followed by the old tail
+				f.content = &blobVal{hybrid: true, doc: b.doc, typ: b.typ, n: old.n}
+			} else {
+				f.content = &blobVal{doc: b.doc, typ: b.typ, torn: k, n: b.n}
+			}
 			panic(crashEvent{})
 		}
 		f.content = b
@@ -328,7 +335,7 @@ func init() {
 		// O_TRUNC: the file is empty from here on
 		f.content = &blobVal{torn: mkInt(0), n: mkInt(0)}
 		ex.crashPoint()
-		if e := writeBlob(ex, f, args[1], site); e.T != nil {
+		if e := writeBlob(ex, f, args[1], site, false); e.T != nil {
 			return e
 		}
 		ex.crashPoint()
@@ -372,10 +379,27 @@ func init() {
 			return Tuple{Ptr{}, fsErr(site, "io")}
 		}
 		fs.ntmp++
+		// the name is the pattern with its last "*" replaced by a random decimal string (appended when there is none)
 		rnd := ex.freshVar("tmpname", SStr, "string", false)
-		ex.assume(mkNot(mkContains(rnd, mkStr("/"))))
-		ex.assume(mkPrefixOf(mkStr(fmt.Sprintf("tmp%d-", fs.ntmp)), rnd))
-		path := mkConcat(dir, mkStr("/"), rnd)
+		ex.assume(mkStrOp("str.in_re", SBool, rnd, mkRaw("(re.+ (re.range \"0\" \"9\"))")))
+		pat := catAtoms(strTerm(args[1]))
+		var name []*Term
+		placed := false
+		for i := len(pat) - 1; i >= 0; i-- {
+			a := pat[i]
+			if !placed && a.Op == "cs" && strings.Contains(a.S, "*") {
+				j := strings.LastIndex(a.S, "*")
+				name = append([]*Term{mkStr(a.S[:j]), rnd, mkStr(a.S[j+1:])}, name...)
+				placed = true
+				continue
+			}
+			name = append([]*Term{a}, name...)
+		}
+		if !placed {
+			name = append(name, rnd)
+		}
+		_ = fmt.Sprint
+		path := mkConcat(append([]*Term{dir, mkStr("/")}, name...)...)
 		for _, e := range fs.files {
 			ex.assume(mkNot(mkEq(e.path, path))) // O_EXCL: the name is new
 		}
@@ -414,7 +438,7 @@ func init() {
 			return Tuple{int64(0), fsErr(site, "io")}
 		}
 		old, _ := f.ent.content.(*blobVal)
-		if e := writeBlob(ex, f.ent, args[1], site); e.T != nil {
+		if e := writeBlob(ex, f.ent, args[1], site, f.noTrunc); e.T != nil {
 			return Tuple{int64(0), e}
 		}
 		if nb, _ := f.ent.content.(*blobVal); f.noTrunc && old != nil && nb != nil && old.n != nil && nb.n != nil {
@@ -434,6 +458,19 @@ func init() {
 		if ex.fault("close") {
 			return fsErr(site, "io")
 		}
+		return Iface{}
+	})
+	reg("(*os.File).Truncate", func(ex *Exec, fn *ssa.Function, args []Value, site string) Value {
+		f := fileOf(args[0])
+		if f == nil {
+			return fsErr(site, "invalid")
+		}
+		ex.crashPoint()
+		// truncating to the length just written completes a non-truncating overwrite
+		if b, _ := f.ent.content.(*blobVal); b != nil && b.hybrid && b.doc != nil {
+			f.ent.content = &blobVal{doc: b.doc, typ: b.typ, n: b.n}
+		}
+		ex.crashPoint()
 		return Iface{}
 	})
 	reg("(*os.File).Sync", func(ex *Exec, fn *ssa.Function, args []Value, site string) Value { return Iface{} })
@@ -587,9 +624,10 @@ func init() {
 			if ex.decideBool(mkEq(b.torn, mkInt(0))) {
 				return Iface{} // zero bytes decode as the empty message
 			}
-			if b.doc == nil || ex.chooseFree(2) == 0 {
+			if b.doc == nil {
 				return fsErr(site, "proto")
 			}
+			failed := b.midField || ex.chooseFree(2) == 0
 			// torn exactly after the first top-level field: that field only, no error
 			src := deepClone(b.doc, map[*Value]*Value{}).(Struct)
 			st := b.typ.(*types.Pointer).Elem().Underlying().(*types.Struct)
@@ -605,6 +643,10 @@ func init() {
 				src[i] = ex.zero(st.Field(i).Type())
 			}
 			assignCell(dst.C, src)
+			if failed {
+				// torn in the middle of a later field: the decoder fails, having filled what it had read so far
+				return fsErr(site, "proto")
+			}
 			return Iface{}
 		}
 		if b.doc == nil {
